@@ -414,7 +414,7 @@ func Generate(seed uint64, opt GenOptions) *Scenario {
 		sc.Docs = append(sc.Docs, DocSpec{JSON: js, Number: useNumber && g.chance(0.7)})
 	}
 	for i, d := range poolDocs {
-		if (wildOK && !poolDocSafe[i]) || d.NoEnum {
+		if (wildOK && !poolDocSafe[i]) || d.NoGen {
 			continue
 		}
 		for _, hg := range homeGroups {
@@ -430,7 +430,7 @@ func Generate(seed uint64, opt GenOptions) *Scenario {
 			continue
 		}
 		i := g.r.IntN(len(poolDocs))
-		if (wildOK && !poolDocSafe[i]) || poolDocs[i].NoEnum {
+		if (wildOK && !poolDocSafe[i]) || poolDocs[i].NoGen {
 			continue
 		}
 		addDoc(poolDocs[i].JSON)
